@@ -1,6 +1,7 @@
 """C04 — GVT is a monotone, safe lower bound: structural clauses."""
 from .. import rules_gvt
 from .. import rules_fossil
+from .. import rules_mpi
 
 
 def run(ck, progs):
@@ -14,6 +15,8 @@ def run(ck, progs):
     ck.rule("C04.5", "memory-order floors on the rendezvous counters that publish plain data (reducing_p[], total_sent[], the reduced value)")
     ck.rule("C04.6", "reclamation compares strictly below GVT (fossil scan, deferred message release)")
     ck.rule("C04.7", "each MPI collective is entered by the single thread elected through an RMW result")
+    ck.rule("C04.8", "the two reductions across ranks: minimum of one double per rank, sum-scatter of one uint32 per rank, datatype = C type of the "
+                     "buffers, separate static buffers, and the request each *_done sibling tests is the one started")
     for cfg, P in progs.items():
         rules_gvt.check_extraction_first(ck, P, "C04.1")
         rules_gvt.check_two_peeks(ck, P, "C04.2")
@@ -23,3 +26,4 @@ def run(ck, progs):
         rules_gvt.check_floors(ck, P, "C04.5")
         rules_fossil.check_strict_frontier(ck, P, "C04.6")
         rules_gvt.check_unique_collective_caller(ck, P, "C04.7")
+        rules_mpi.check_collectives(ck, P, "C04.8")
